@@ -59,6 +59,34 @@ fn canon_ip(s: &str) -> Option<Vec<u8>> {
     match s.parse::<IpAddr>().ok()? { IpAddr::V4(a) => Some(a.octets().to_vec()), IpAddr::V6(a) => Some(a.octets().to_vec()) }
 }
 
+/// IPv6 addresses of every special form (a uniformly random one is never in any of these ranges)
+pub const V6_SPECIAL: &[[u8; 16]] = &[
+    [0; 16],                                                        // ::
+    [0, 0, 0, 0, 0, 0, 0, 0, 0, 0, 0, 0, 0, 0, 0, 1],               // ::1
+    [0, 0, 0, 0, 0, 0, 0, 0, 0, 0, 0, 0, 10, 1, 2, 3],              // ::10.1.2.3 (IPv4-compatible)
+    [0, 0, 0, 0, 0, 0, 0, 0, 0, 0, 0, 0, 0, 0, 1, 0],               // ::1:0
+    [0, 0, 0, 0, 0, 0, 0, 0, 0, 0, 0xff, 0xff, 127, 0, 0, 1],       // ::ffff:127.0.0.1 (IPv4-mapped)
+    [0, 0, 0, 0, 0, 0, 0, 0, 0, 0, 0xff, 0xff, 0, 0, 0, 0],         // ::ffff:0.0.0.0
+    [0, 0x64, 0xff, 0x9b, 0, 0, 0, 0, 0, 0, 0, 0, 192, 0, 2, 33],   // 64:ff9b::192.0.2.33 (NAT64)
+    [0xfe, 0x80, 0, 0, 0, 0, 0, 0, 0, 0, 0, 0, 0, 0, 0, 1],         // fe80::1
+    [0xff, 0x02, 0, 0, 0, 0, 0, 0, 0, 0, 0, 0, 0, 0, 0, 1],         // ff02::1
+    [0x20, 0x01, 0x0d, 0xb8, 0, 0, 0, 0, 0, 0, 0, 0, 0, 0, 0, 5],   // 2001:db8::5
+    [0x20, 0x02, 0x7f, 0, 0, 1, 0, 0, 0, 0, 0, 0, 0, 0, 0, 0],      // 2002:7f00:1:: (6to4)
+    [0xff; 16],
+    [0, 0, 0, 0, 0, 0, 0, 0, 0, 0, 0, 1, 0, 0, 0, 0],               // ::1:0:0
+];
+pub const V4_SPECIAL: &[[u8; 4]] = &[[0, 0, 0, 0], [0, 0, 0, 1], [127, 0, 0, 1], [255, 255, 255, 255], [10, 0, 0, 1], [169, 254, 1, 1], [224, 0, 0, 1]];
+
+fn gen_v6(rng: &mut Rng) -> Vec<u8> {
+    match rng.below(4) {
+        0 => rng.pick(V6_SPECIAL).to_vec(),
+        1 => { let mut a = vec![0u8; 12]; if rng.chance(1, 2) { a[10] = 0xff; a[11] = 0xff; } a.extend(rng.bytes(4)); a }
+        2 => { let mut a = vec![0u8; 16]; let k = rng.below(16) as usize; a[k] = rng.next() as u8; a }
+        _ => rng.bytes(16),
+    }
+}
+fn gen_v4(rng: &mut Rng) -> Vec<u8> { if rng.chance(1, 3) { rng.pick(V4_SPECIAL).to_vec() } else { rng.bytes(4) } }
+
 impl Group for DestGroup {
     fn default_cases(&self, tier: &str) -> u64 { if tier == "thorough" { 60_000 } else { 3_000 } }
 
@@ -69,6 +97,9 @@ impl Group for DestGroup {
         for k in 0..=w.len() { v.push(Case { lines: vec![format!("dest dec 1 {} {}", hex(&w[..k]), hex(&w[k..]))] }); }
         // regression witness of the cache defect (DESIGN §6 D6): same host, other port
         v.push(Case { lines: vec!["dns clear".into(), format!("dns seed {} 7f000001:80", hex(b"h.test")), format!("dns resolve {} 443", hex(b"h.test")), "dns rlocal 80".into(), "dns rlocal 443".into()] });
+        // every special IPv4 / IPv6 form through the real client encoder and the real server decoder
+        for a in V6_SPECIAL { v.push(Case { lines: vec![format!("dest enc 4 {} 443", hex_compact(a))] }); v.push(Case { lines: vec![format!("dest dec 1 {}", hex(&enc_dest(4, a, 8080)))] }); }
+        for a in V4_SPECIAL { v.push(Case { lines: vec![format!("dest enc 1 {} 80", hex_compact(a))] }); v.push(Case { lines: vec![format!("dest dec 1 {}", hex(&enc_dest(1, a, 8080)))] }); }
         // domain length boundaries through the real client
         for l in [1usize, 255, 256, 300] { v.push(Case { lines: vec![format!("dest enc 3 {} 443", hex_compact(&vec![b'a'; l]))] }); }
         v
@@ -80,14 +111,14 @@ impl Group for DestGroup {
         let open = rng.chance(2, 3) as u8;
         if k < 30 {
             // server-side destination reader
-            let (kind, addr) = match rng.below(5) { 0 => (1u8, rng.bytes(4)), 1 => (4, rng.bytes(16)), 2 => (4, { let mut a = vec![0u8; 10]; a.extend_from_slice(&[0xff, 0xff]); a.extend(rng.bytes(4)); a }), _ => (3, gen_domain(rng)) };
+            let (kind, addr) = match rng.below(5) { 0 => (1u8, gen_v4(rng)), 1 => (4, gen_v6(rng)), 2 => (4, { let mut a = vec![0u8; 10]; a.extend_from_slice(&[0xff, 0xff]); a.extend(rng.bytes(4)); a }), _ => (3, gen_domain(rng)) };
             let mut w = enc_dest(kind, &addr, port);
             match rng.below(8) { 0 => { let n = rng.below(w.len() as u64) as usize; w.truncate(n); } 1 => { w[0] = rng.next() as u8; } 2 => { if kind == 3 { w[1] = 0; } } 3 => { if kind == 3 && w.len() > 4 { w[3] = 0xff; } } _ => {} }
             if rng.chance(1, 2) { let n = rng.below(10) as usize; w.extend(rng.bytes(n)); }
             return Case { lines: vec![format!("dest dec {} {}", open, chunks_str(&cut(rng, &w)))] };
         }
         if k < 42 {
-            let (kind, addr) = match rng.below(4) { 0 | 1 => (1u8, rng.bytes(4)), 2 => (4, rng.bytes(16)), _ => (3, b"127.0.0.1".to_vec()) };
+            let (kind, addr) = match rng.below(4) { 0 | 1 => (1u8, gen_v4(rng)), 2 => (4, gen_v6(rng)), _ => (3, b"127.0.0.1".to_vec()) };
             let mut w = vec![if rng.chance(1, 10) { rng.next() as u8 } else { 1 }];
             w.extend(enc_dest(kind, &addr, port));
             if rng.chance(1, 6) { let n = rng.below(w.len() as u64) as usize; w.truncate(n); }
@@ -95,7 +126,7 @@ impl Group for DestGroup {
             return Case { lines: vec![format!("dest udpreq {} {}", open, chunks_str(&cut(rng, &w)))] };
         }
         if k < 54 {
-            let (kind, addr) = match rng.below(4) { 0 => (1u8, rng.bytes(4)), 1 => (4, rng.bytes(16)), _ => (3, if rng.chance(1, 5) { vec![b'x'; *rng.pick(&[255usize, 256, 257, 400])] } else { gen_domain(rng) }) };
+            let (kind, addr) = match rng.below(4) { 0 => (1u8, gen_v4(rng)), 1 => (4, gen_v6(rng)), _ => (3, if rng.chance(1, 5) { vec![b'x'; *rng.pick(&[255usize, 256, 257, 400])] } else { gen_domain(rng) }) };
             // a name that spells an IP literal is classified as an IP by the client: not a domain request
             let addr = if kind == 3 && String::from_utf8(addr.clone()).ok().map(|s| s.parse::<IpAddr>().is_ok()).unwrap_or(false) { b"localhost".to_vec() } else { addr };
             return Case { lines: vec![format!("dest enc {} {} {}", kind, hex_compact(&addr), port)] };
